@@ -24,7 +24,7 @@ for pid in sorted(CLAIMED):
         "quick_cmd": f"./check {pid} quick",
         "thorough_cmd": f"./check {pid} thorough",
         "evidence_file": f"/verif/evidence/{pid}.json",
-        "replay_cmd_template": "./bin/amc replay {path}",
+        "replay_cmd_template": "./check replay {path}",
         "engine": "amc",
         "level_claimed": {"category": "model_checking", "text": text, "design_ref": ref},
         "level_note": note,
